@@ -26,6 +26,10 @@ pub struct RecDest {
     /// (`below`) and logged with its absolute offset.
     pub base: u64,
     pub below: bool,
+    /// when the n-th (1-based) directory entry has been written: kill the target process `pid` and reap its threads
+    /// (the dumper is their tracer, and runs in this thread), so that `/proc/<pid>` is gone for every later step
+    pub kill_at_dirent: Option<(usize, i32, Vec<i32>)>,
+    pub dirents: usize,
 }
 
 impl RecDest {
@@ -40,7 +44,7 @@ impl RecDest {
         self
     }
     pub fn new(content: Vec<u8>, pos: u64) -> Self {
-        RecDest { content, pos, calls: 0, script: HashMap::new(), snaps: Vec::new(), snap: false, log: Vec::new(), panic_at: None, base: 0, below: false }
+        RecDest { content, pos, calls: 0, script: HashMap::new(), snaps: Vec::new(), snap: false, log: Vec::new(), panic_at: None, base: 0, below: false, kill_at_dirent: None, dirents: 0 }
     }
     fn resp(&mut self) -> Resp {
         let k = self.calls;
@@ -88,6 +92,33 @@ impl Write for RecDest {
         self.pos += n as u64;
         self.log.push(format!("w{}+{}", pos, n));
         self.after();
+        if n == 12 {
+            self.dirents += 1;
+            if let Some((at, pid, tids)) = &self.kill_at_dirent {
+                if *at == self.dirents {
+                    unsafe {
+                        libc::kill(*pid, libc::SIGKILL);
+                        for _ in 0..400 {
+                            let mut left = false;
+                            for tid in tids.iter().filter(|t| **t != *pid) {
+                                let mut st = 0;
+                                libc::waitpid(*tid, &mut st, libc::__WALL | libc::WNOHANG);
+                                if std::path::Path::new(&format!("/proc/{}/task/{}", pid, tid)).exists() {
+                                    left = true;
+                                }
+                            }
+                            let mut st = 0;
+                            libc::waitpid(*pid, &mut st, libc::__WALL | libc::WNOHANG);
+                            if !left && !std::path::Path::new(&format!("/proc/{}", pid)).exists() {
+                                break;
+                            }
+                            std::thread::sleep(std::time::Duration::from_millis(2));
+                        }
+                    }
+                    self.log.push("KILLED".into());
+                }
+            }
+        }
         Ok(n)
     }
     fn flush(&mut self) -> Result<()> {
